@@ -223,7 +223,7 @@ def run(pid, tier):
         'header recogniser: exact when the longest header-like prefix is a complete header; for dangling "*", ":" and trailing colon the result may be nothing, the longest complete header, or an INCOMPLETE type whose extent is a header-like prefix',
         'a block cut by the end of input: nothing, or nothing with the cursor moved to the end of input (the library\'s documented "wait for more input")',
         'units that are not well formed: only "not reported as complete header with a valid parameter count" and the bounds are checked (consumed bytes for resynchronisation are not specified)',
-        'header followed by white space and no data: numberOfParameters 0 or -1 are both accepted (empty data extent either way)',
+        'parameter count: exact for a valid list; when no element of the list was consumed (no data, or the first element fails / is cut by the end of input) 0 or -1 are both accepted; when an element was consumed and a later one fails the count must be negative',
         'pointer arithmetic past the buffer inside scpiLex_ArbitraryBlockProgramData (pos += length before the bounds test) is not observable by ASan/UBSan and not judged',
     ]
     shutil.rmtree(w, ignore_errors=True)
